@@ -20,9 +20,11 @@ type c18Op struct {
 }
 
 type c18Plan struct {
-	Knobs  Knobs     `json:"knobs"`
-	Format string    `json:"format"`
-	Progs  [][]c18Op `json:"progs"`
+	Knobs  Knobs  `json:"knobs"`
+	Format string `json:"format"`
+	// MoreFormats: further pools of the same process (a task's name variable i belongs to pool i mod #pools).
+	MoreFormats []string  `json:"more_formats,omitempty"`
+	Progs       [][]c18Op `json:"progs"`
 }
 
 type c18 struct{}
@@ -37,7 +39,7 @@ func (c18) NRuns(tier string) int {
 	return 20000
 }
 func (c18) Rule() string {
-	return "each run = G tasks (1..8, thorough up to 64) running random programs over Acquire/hold/Release(pool)/Release(name)/double release/Release(nil) on one namepool (12% wide: each task first holds 6..45 names at once, releases them all, some twice, then continues), sync.Pool replaced by a seeded model with drop-on-put, any-item-on-get and GC-empties-pool faults; non-trivial = at least two tasks held names concurrently or a pooled id was reused; distinct = distinct hash of the (task,site) schedule trace"
+	return "each run = G tasks (1..8, thorough up to 64) running random programs over Acquire/hold/Release(pool)/Release(name)/double release/Release(nil) on one namepool (20% of the runs: two or three pools in the process, a held name is re-read at every step; 12% wide: each task first holds 6..45 names at once, releases them all, some twice, then continues), sync.Pool replaced by a seeded model with drop-on-put, any-item-on-get and GC-empties-pool faults; non-trivial = at least two tasks held names concurrently or a pooled id was reused; distinct = distinct hash of the (task,site) schedule trace"
 }
 func (c18) Components() map[string]string {
 	return map[string]string{"namepool": "real (rewritten)", "sync.Pool": "stub: simrt.Pool contract model", "sync/atomic": "real atomics behind a scheduling point", "goroutine scheduling": "simulated (simrt baton scheduler)"}
@@ -48,6 +50,16 @@ var c18Formats = []string{"%d", "stmt%d", "c_%d_x", "%05d", "%x", "noverb", "", 
 
 func (c18) Gen(r *Rand, idx int, tier string) interface{} {
 	p := &c18Plan{Knobs: GenKnobs(r), Format: Pick(r, c18Formats)}
+	if r.Pct(20) {
+		for k := 1 + r.Intn(2); k > 0; k-- {
+			// the same format in two pools is the interesting case: their names may coincide, their ids are independent
+			if r.Bool() {
+				p.MoreFormats = append(p.MoreFormats, p.Format)
+			} else {
+				p.MoreFormats = append(p.MoreFormats, Pick(r, c18Formats))
+			}
+		}
+	}
 	maxG := 8
 	if tier == "thorough" && r.Pct(10) {
 		maxG = 64
@@ -149,6 +161,7 @@ type c18Hold struct {
 	task     string
 	acqCall  int
 	relRet   int
+	pool     int
 }
 
 func (c18) Run(plan interface{}, schedSeed uint64, replay []simrt.Choice, lenient, keepLog bool) (*Verdict, *simrt.Outcome) {
@@ -168,7 +181,16 @@ func (c18) Run(plan interface{}, schedSeed uint64, replay []simrt.Choice, lenien
 	}
 
 	out := s.Run(func() {
-		pool := namepool.Pool(p.Format)
+		type namePool interface {
+			Acquire() *namepool.Name
+			Release(*namepool.Name)
+		}
+		formats := append([]string{p.Format}, p.MoreFormats...)
+		var pools []namePool
+		for _, f := range formats {
+			pools = append(pools, namepool.Pool(f))
+		}
+		pool := pools[0]
 		var ts []*simrt.Task
 		for ti := range p.Progs {
 			ti := ti
@@ -176,11 +198,25 @@ func (c18) Run(plan interface{}, schedSeed uint64, replay []simrt.Choice, lenien
 				tr := res[ti]
 				names := map[int]*namepool.Name{}
 				live := map[int]*c18Hold{}
+				// a held name keeps its id and text whatever the other holders do
+				checkHeld := func() {
+					for slot, h := range live {
+						if h.to >= 0 || names[slot] == nil {
+							continue
+						}
+						if id, text := names[slot].ID(), names[slot].Name(); id != h.id || text != h.text {
+							tr.errs = append(tr.errs, fmt.Sprintf("a held name changed: acquired as id %d %q, now id %d %q", h.id, h.text, id, text))
+							h.id, h.text = id, text
+						}
+					}
+				}
 				release := func(slot int, viaPool bool) {
 					n := names[slot]
 					if n == nil {
 						return
 					}
+					checkHeld()
+					pool := pools[slot%len(pools)]
 					h := live[slot]
 					seq := simrt.Record("rel-call", "", "", 0)
 					if h != nil && h.to < 0 {
@@ -207,9 +243,9 @@ func (c18) Run(plan interface{}, schedSeed uint64, replay []simrt.Choice, lenien
 							_ = old
 						}
 						call := simrt.Record("acq-call", "", "", 0)
-						n := pool.Acquire()
+						n := pools[op.Slot%len(pools)].Acquire()
 						id := n.ID()
-						h := &c18Hold{id: id, text: n.Name(), task: fmt.Sprintf("c%d", ti), to: -1, acqCall: call}
+						h := &c18Hold{id: id, text: n.Name(), task: fmt.Sprintf("c%d", ti), to: -1, acqCall: call, pool: op.Slot % len(pools)}
 						h.from = simrt.Record("acq-ret", h.text, "", int64(id))
 						if n.String() != n.Name() {
 							tr.errs = append(tr.errs, "String() != Name()")
@@ -230,6 +266,7 @@ func (c18) Run(plan interface{}, schedSeed uint64, replay []simrt.Choice, lenien
 					case "hold":
 						for i := 0; i < op.N; i++ {
 							simrt.Yield(0)
+							checkHeld()
 						}
 					}
 				}
@@ -269,20 +306,21 @@ func (c18) Run(plan interface{}, schedSeed uint64, replay []simrt.Choice, lenien
 	}
 	concurrent := false
 	reused := false
-	seen := map[uint64]bool{}
+	seen := map[[2]uint64]bool{}
 	for i, a := range all {
 		if a.id == 0 {
 			v.Violate("wrong-value", "id-zero", "Acquire returned id 0 (text %q)", a.text)
 		}
-		if want := fmt.Sprintf(p.Format, a.id); a.text != want {
-			v.Violate("wrong-value", "text-mismatch", "name text %q is not format %q applied to id %d (%q)", a.text, p.Format, a.id, want)
+		formats := append([]string{p.Format}, p.MoreFormats...)
+		if want := fmt.Sprintf(formats[a.pool], a.id); a.text != want {
+			v.Violate("wrong-value", "text-mismatch", "name text %q is not format %q applied to id %d (%q)", a.text, formats[a.pool], a.id, want)
 		}
-		if seen[a.id] {
+		if seen[[2]uint64{uint64(a.pool), a.id}] {
 			reused = true
 		}
-		seen[a.id] = true
+		seen[[2]uint64{uint64(a.pool), a.id}] = true
 		for _, b := range all[i+1:] {
-			if b.from >= end(a) {
+			if b.from >= end(a) || b.pool != a.pool {
 				continue
 			}
 			// a and b overlap
@@ -299,7 +337,7 @@ func (c18) Run(plan interface{}, schedSeed uint64, replay []simrt.Choice, lenien
 	}
 
 	// porcupine: linearizability against "set of live ids"
-	if v.Class == "" && len(all) > 0 && len(all) <= 60 {
+	if v.Class == "" && len(all) > 0 && len(all) <= 60 && len(p.MoreFormats) == 0 {
 		type in struct {
 			acquire bool
 			id      uint64
